@@ -56,12 +56,20 @@ def build_cases(ck: core.Check, rnd: random.Random):
 def main() -> int:
     ck = core.Check("C28", "model_checking")
     rnd = random.Random(ck.seed)
-    ck.model_check("Pipeline", "MC_Pipeline.cfg", "Smoke composition: exit 0 => all components ok; any fails => exit 1 and a report", workers=4, timeout=600)
     rp = pipe_check.replay_case()
+    built = {}
+
+    def build():
+        built["v"] = build_cases(ck, rnd)
+
+    jobs = [lambda: ck.model_check("Pipeline", "MC_Pipeline.cfg", "Smoke composition: exit 0 => all components ok; any fails => exit 1 and a report", workers=2, timeout=900)]
+    if rp is None:
+        jobs.append(build)
+    pipe_check.in_parallel(jobs)
     if rp is not None:
         cases, counts = [dict(rp, desc=rp.get("desc", {"src": "replay"}))], {"replay": 1}
     else:
-        cases, counts = build_cases(ck, rnd)
+        cases, counts = built["v"]
     traces, meta, installed = pipe_check.run_cases(ck, cases, "harness.run_c28", "c28")
     viols, counters = pipe_check.validate(ck, traces, "PipelineTrace_C28.cfg", "smoke exit status agrees with the components; recorded cases")
     by_id = {c["id"]: c for c in cases}
